@@ -14,6 +14,7 @@ class EoReader:
         return [
             0 <= self._position, self._position <= len(self._data),
             0 <= self._chunk_start, self._chunk_start <= len(self._data),
+            self._chunk_start <= self._position,
             self._next_break != -1 or (not self._chunked_reading_mode and self._chunk_start == 0),
             self._next_break == -1 or isNB(self._data, self._chunk_start, self._next_break),
         ]
